@@ -1030,10 +1030,6 @@ class SourceFinder(object):
             )
             source.a *= 3600  # arcseconds
             source.b *= 3600
-            # force a>=b
-            fix_shape(source)
-            # limit the pa to be in (-90,90]
-            source.pa = pa_limit(source.pa)
 
             # if one of these values are nan then there has been some problem
             # with the WCS handling
@@ -1057,6 +1053,11 @@ class SourceFinder(object):
 
             # Calculate errors for params that were fit (as well as int_flux)
             errors(source, model, global_data.wcshelper)
+            # force a>=b (only now that err_a/err_b exist and can be swapped
+            # along with a/b)
+            fix_shape(source)
+            # limit the pa to be in (-90,90]
+            source.pa = pa_limit(source.pa)
 
             source.flags = src_flags
             # add psf info
